@@ -188,3 +188,36 @@ Proof.
     change (256 ^ 1) with (2 ^ 8) in *. change (256 ^ 3) with (2 ^ 24) in *. change (256 ^ 4) with (2 ^ 32) in *.
     rewrite !N.mod_small; [lia| | | | |]; try assumption; try (change (2 ^ 8) with 256; lia).
 Qed.
+
+(* ---- FHDR: DevAddr | FCtrl | FCnt | FOpts ---- *)
+Theorem fhdr_is_spec h opts :
+  items_marshal (fopts h) = Ok opts -> (length opts <= 15)%nat ->
+  length (devaddr h) = 4%nat -> Forall (fun b => b < 256) (devaddr h) ->
+  fhdr_marshal h = Ok (spec_fhdr h opts).
+Proof.
+  intros Ho Hl L4 B4. unfold fhdr_marshal, spec_fhdr. rewrite Ho. cbn [bind].
+  assert (En : N.of_nat (length opts) mod 256 = N.of_nat (length opts)) by (apply N.mod_small; lia).
+  rewrite En. replace (15 <? N.of_nat (length opts)) with false by lia.
+  set (c := mkFCtrl (adr (fc h)) (adrackreq (fc h)) (ack (fc h)) (fpending (fc h)) (classb (fc h)) (N.of_nat (length opts))).
+  assert (Hc : foptslen c < 16) by (unfold c; cbn [foptslen]; lia).
+  rewrite (fctrl_is_spec c Hc). cbn [bind]. f_equal.
+  rewrite (rev_is_le (devaddr h) B4), L4.
+  pose proof (id_val_lt (devaddr h) B4) as V. rewrite L4 in V.
+  assert (Hcb : spec_fctrl c < 256).
+  { unfold spec_fctrl, c. cbn [foptslen adr adrackreq ack fpending classb pack L_FCtrl].
+    destruct (classb (fc h) || fpending (fc h)), (ack (fc h)), (adrackreq (fc h)), (adr (fc h)); cbn [b2f];
+      change (2 ^ 4) with 16; change (2 ^ 1) with 2; lia. }
+  unfold spec_encode. change (byte_size L_FHDR_fixed) with (4 + (1 + 2))%nat.
+  replace (pack L_FHDR_fixed [id_val (devaddr h); spec_fctrl c; fcnt h mod 65536])
+    with (id_val (devaddr h) + 256 ^ N.of_nat 4 * (spec_fctrl c + 256 ^ N.of_nat 1 * (fcnt h mod 65536))).
+  - rewrite le_bytes_app by exact V. rewrite le_bytes_app by exact Hcb.
+    rewrite <- app_assoc. f_equal. cbn [le_bytes app].
+    generalize (fcnt h). intros fc0. clearbody c.
+    apply (f_equal2 (@cons N)); [lia|]. apply (f_equal2 (@cons N)); [lia|]. apply (f_equal2 (@cons N)); [lia|reflexivity].
+  - cbn [pack L_FHDR_fixed]. change (N.of_nat 4) with 4 in *. change (N.of_nat 1) with 1 in *.
+    change (256 ^ 4) with (2 ^ 32) in *. change (256 ^ 1) with (2 ^ 8) in *.
+    assert (Hf : fcnt h mod 65536 < 2 ^ 16) by (change (2 ^ 16) with 65536; apply N.mod_lt; discriminate).
+    rewrite (N.mod_small (id_val (devaddr h))) by assumption.
+    rewrite (N.mod_small (spec_fctrl c)) by (change (2 ^ 8) with 256; exact Hcb).
+    rewrite (N.mod_small (fcnt h mod 65536)) by exact Hf. lia.
+Qed.
